@@ -245,10 +245,11 @@ for tag, (cpp, n, sg) in INT_TYPES.items():
 # bit utilities
 for tag, (cpp, n, sg) in INT_TYPES.items():
     for L in shapes(tag):
-        gen(d_bf, 'findNSB', F_EXTV if L else F_EXT, tag, L, [('T', 'x'), ('IV', 'k')], 'int',
-            [('count_at_least_1', lambda c: '(s32)%s >= 1' % c['k'])],
-            [('position_of_kth_set_bit_or_minus_1', lambda c: '(s32)%s == spec_nth_set_bit((u64)%s, %d, (s32)%s)' % (c['R'], c['x'], n, c['k']))],
-            timeout=3600 if (n == 64 and L) else 900, tier='quick' if (L == 0 and n <= 16) else 'thorough')
+        if not (n == 64 and L):   # 64-bit vec4: 4 x ~4 min per obligation, not run (P.not_covered); the scalar form is proved
+            gen(d_bf, 'findNSB', F_EXTV if L else F_EXT, tag, L, [('T', 'x'), ('IV', 'k')], 'int',
+                [('count_at_least_1', lambda c: '(s32)%s >= 1' % c['k'])],
+                [('position_of_kth_set_bit_or_minus_1', lambda c: '(s32)%s == spec_nth_set_bit((u64)%s, %d, (s32)%s)' % (c['R'], c['x'], n, c['k']))],
+                timeout=900, tier='quick' if (L == 0 and n <= 16) else 'thorough')
         gen(d_bf, 'mask', F_BF, tag, L, [('T', 'b')], 'T',
             [('count_within_width', lambda c: ('(%s)%s >= 0 && ' % (S(tag), c['b']) if sg else '') + '%s <= %d' % (c['b'], n))],
             [('low_b_bits_set', lambda c: '%s == (%s)spec_ones(0, %s)' % (c['R'], U(tag), c['b']))])
@@ -385,6 +386,7 @@ P.not_covered = [
     'negative arguments of the signed power-of-two family: GLM follows a sign-magnitude convention there (ceilPowerOfTwo(-3) == -4 is pinned by test/gtc/gtc_round.cpp; isPowerOfTwo(-4) is true; floor/round/prev use findMSB of a negative value) that the statement does not describe; like the value at 0 it is not claimed',
     '%-based functions (isMultiple, next/prev/ceil/floor/roundMultiple) on 32/64-bit types over their full range, and gtx mod(int/uint) over the full range: no back end finishes (sat, z3, cvc5 probed, > 900 s); claimed instead, as bounded, on two embedded exhaustive 8-bit sub-domains (arguments multiples of 2^(n-8); arguments below 2^8), scalar forms only',
     '%-based functions at 16 bit in vector form (component-wise functor2 application of the proved scalar function): ~4 x 5-12 min per obligation, not run; the 8-bit vector forms are proved',
+    'findNSB(vec4) for the 64-bit element types (functor2_vec_int application of the proved scalar function): > 900 s per contract, not run',
     'gtx pow for y > 12, sqrt for x > 65535, factorial for x > 12: value-bounded loops (reported as bounded below these limits)',
     'gtx floor_log2: declared in gtx/integer.hpp but its definition is commented out (does not link)',
     'bitfieldRotate with Shift == 0 on 32/64-bit types and bitfieldFill with FirstBit == width: shift by the full width (C20)',
